@@ -21,6 +21,12 @@ Deviation flags (diagnosis of documented defects only):
   "ctx_flat"           the entries of a boxed context nested inside another boxed context are written into the frame
                        of the enclosing logic (they stay visible, and overwrite same-named entries, after the nested
                        context has ended)
+  "inv_omitted"        a boxed invocation of a knowledge model that leaves a parameter without binding: the parameter is not null
+                       inside the model's logic but resolves in the scope of the invoking element when that scope has an
+                       entry of the same name (the body runs on top of the caller's scope: same root as
+                       C01/closure-dynamic-scope). Decision services read their arguments from the top frame only and do
+                       not show it.
+  "inv_whole_null"     not a defect but a second accepted reading: a boxed invocation that leaves a parameter unbound is null as a whole
   "bkm_service_value"  a decision service required by a BKM is bound to the service's *result* for the current input
                        context instead of to a function
 """
@@ -33,8 +39,9 @@ Unspecified = F.Unspecified
 
 
 class NativeFn:
-    def __init__(self, name, params, call):
+    def __init__(self, name, params, call, kind=None):
         self.name, self.params, self.call = name, params, call     # params: [(name, typeRef|None)]
+        self.kind = kind                                            # "bkm" | "service" | None (boxed function definition)
 
     def __repr__(self):
         return "<function %s>" % self.name
@@ -184,9 +191,17 @@ class Evaluation:
                 given[p] = self.logic(sub, env)
             if isinstance(f, NativeFn):
                 names = [p for p, _ in f.params]
-                if set(given) != set(names):
+                if not set(given) <= set(names):
                     raise Unspecified("bindings do not match the parameters")
-                return f.call(self.ref, [given[p] for p in names], env)
+                omitted = [p for p in names if p not in given]
+                if omitted and "inv_whole_null" in self.dev:
+                    # the other defensible reading: an invocation that does not bind every parameter is null as a whole (what a FEEL
+                    # call with too few arguments gives)
+                    self.fired.add("inv_whole_null")
+                    return None
+                if omitted and "inv_omitted" in self.dev and f.kind == "bkm":
+                    return f.call(self.ref, [given.get(p) for p in names], env, omitted=omitted)
+                return f.call(self.ref, [given.get(p) for p in names], env)
             if f is None or self.fired:
                 return None      # behind a modelled deviation the invocation of a non-function shows up as null
             raise Unspecified("invocation of a value that is not a model function")
@@ -273,11 +288,18 @@ class Evaluation:
             else:
                 frame[r] = self.knowledge(r, inputs, overrides)
 
-        def call(ref, args, caller=None, b=b, params=params, frame=frame):
+        def call(ref, args, caller=None, b=b, params=params, frame=frame, omitted=()):
             check_args(params, args)
-            env = F.Env([dict(frame), dict(zip([p for p, _ in params], args))])
+            if "inv_omitted" in self.dev and caller is not None:
+                # deviation inv_omitted: the logic of EVERY knowledge model runs on top of the scope of whoever calls it (the whole
+                # chain of callers), and parameters left out by a boxed invocation are not bound at all: they resolve in that chain
+                if any(caller.get(p)[0] for p in omitted):
+                    self.fired.add("inv_omitted")
+                env = caller.push(dict(frame)).push({p: a for (p, _), a in zip(params, args) if p not in omitted})
+            else:
+                env = F.Env([dict(frame), dict(zip([p for p, _ in params], args))])
             return coerce_builtin(b.get("type"), self.logic(b["logic"], env))
-        return NativeFn(b["name"], params, call)
+        return NativeFn(b["name"], params, call, kind="bkm")
 
     def service_function(self, sv):
         params = [(i, self.idx[i][1]["type"]) for i in sv["inI"]] + [(d, self.idx[d][1].get("type")) for d in sv["inD"]]
@@ -288,7 +310,7 @@ class Evaluation:
                     raise Unspecified("service argument does not conform to the parameter type")
             given = dict(zip([p for p, _ in params], args))
             return self.service(sv, given)
-        return NativeFn(sv["name"], params, call)
+        return NativeFn(sv["name"], params, call, kind="service")
 
     def service(self, sv, given):
         """given: parameter name -> value (absent = null)"""
